@@ -491,51 +491,75 @@ func c19R1(c *Ctx, a *c19Anchors) {
 		}
 		nPush := 0
 		for _, p := range res.Paths {
+			// first pass: at which push-reaching calls of this path does each subject flow into the arguments
+			type flowInfo struct{ flows, wholesale bool }
+			var pushes []*sxCallRec
 			for _, r := range p.Calls {
-				if !c19IsPushCall(r) {
-					continue
+				if c19IsPushCall(r) {
+					pushes = append(pushes, r)
 				}
-				nPush++
-				site := c19Site(P, r.Call)
-				in := r.Call.(ssa.Instruction)
-				for _, s := range subjects {
-					key := pn + "|" + site + "|" + s.label
-					flows, wholesale := false, false
+			}
+			flow := make([][]flowInfo, len(pushes))
+			lastFlow := make([]int, len(subjects)) // index of the last push of the path the subject flows into
+			for si := range lastFlow {
+				lastFlow[si] = -1
+			}
+			for pi, r := range pushes {
+				flow[pi] = make([]flowInfo, len(subjects))
+				for si, s := range subjects {
+					fi := &flow[pi][si]
 					for _, arg := range r.Args {
 						sxWalk(arg, func(x sxVal) bool {
 							if sxSame(x, s.term) {
-								flows = true
+								fi.flows = true
 							}
 							for _, w := range s.whole {
 								if sxSame(x, w) {
-									flows = true
+									fi.flows = true
 								}
 							}
 							if sxSame(x, opts) {
 								// only a wholesale use counts (a field selection of opts is a different term)
-								wholesale = true
+								fi.wholesale = true
 							}
 							if f, ok := x.(sxField); ok && sxSame(f.x, opts) {
 								return false // do not descend from opts.F into opts
 							}
 							return true
 						})
+					}
+					if fi.flows || fi.wholesale {
+						lastFlow[si] = pi
+					}
+				}
+			}
+			for pi, r := range pushes {
+				nPush++
+				site := c19Site(P, r.Call)
+				in := r.Call.(ssa.Instruction)
+				for si, s := range subjects {
+					key := pn + "|" + site + "|" + s.label
+					for _, arg := range r.Args {
 						if why, unk := sxUnknownIn(arg); unk {
 							agg.undecided(key, P, in, "an argument of this call could not be evaluated: "+why)
 						}
 					}
+					fi := flow[pi][si]
 					switch {
-					case wholesale:
+					case fi.wholesale:
 						agg.undecided(key, P, in, "the options struct is passed wholesale to "+r.Name+"; cannot follow the media type into it")
-					case !flows:
-						agg.ok(key, P, in, "the string does not flow into this call on these paths, or it was validated/empty")
+					case lastFlow[si] < pi:
+						agg.ok(key, P, in, "the string is not used by this or any later push of these paths")
 					case c19Validated(p, r.NFacts, a, s.term):
 						agg.ok(key, P, in, "validated by "+FnName(a.validator)+" (nil result) before the call")
 					case p.IsEmptyString(r.NFacts, s.term):
 						agg.ok(key, P, in, "known empty before the call")
-					default:
+					case fi.flows:
 						agg.fail(key, P, in, p, fmt.Sprintf("%s reaches what %s pushes without having passed %s (a media type violating RFC 6838 would be pushed instead of rejected)",
 							s.label, r.Name, FnName(a.validator)))
+					default:
+						agg.fail(key, P, in, p, fmt.Sprintf("%s is used by a later push of this path (%s) but has not passed %s yet when %s pushes: a media type violating RFC 6838 would be rejected only after something was pushed",
+							s.label, pushes[lastFlow[si]].Name, FnName(a.validator), r.Name))
 					}
 				}
 				if P == a.v10 {
@@ -1397,6 +1421,9 @@ var c19Mutants = []Mutant{
 	{Name: "v11-config-mediatype-not-validated", File: "pack.go",
 		Old: "\t\tif err := validateMediaType(opts.ConfigDescriptor.MediaType); err != nil {\n\t\t\treturn ocispec.Descriptor{}, fmt.Errorf(\"invalid config mediaType format: %w\", err)\n\t\t}\n\t\tconfigDesc = *opts.ConfigDescriptor\n\t} else {\n\t\t// use the empty descriptor for config",
 		New: "\t\tconfigDesc = *opts.ConfigDescriptor\n\t} else {\n\t\t// use the empty descriptor for config", Expect: "C19.R1"},
+	{Name: "v11-artifacttype-validated-after-config-push", File: "pack.go",
+		Old: "\tif artifactType != \"\" {\n\t\tif err := validateMediaType(artifactType); err != nil {\n\t\t\treturn ocispec.Descriptor{}, fmt.Errorf(\"invalid artifactType format: %w\", err)\n\t\t}\n\t}\n\n\t// prepare config\n\tvar emptyBlobExists bool\n\tvar configDesc ocispec.Descriptor\n\tif opts.ConfigDescriptor != nil {\n\t\tif err := validateMediaType(opts.ConfigDescriptor.MediaType); err != nil {\n\t\t\treturn ocispec.Descriptor{}, fmt.Errorf(\"invalid config mediaType format: %w\", err)\n\t\t}\n\t\tconfigDesc = *opts.ConfigDescriptor\n\t} else {\n\t\t// use the empty descriptor for config\n\t\tconfigDesc = ocispec.DescriptorEmptyJSON\n\t\tconfigDesc.Annotations = opts.ConfigAnnotations\n\t\tconfigBytes := ocispec.DescriptorEmptyJSON.Data\n\t\t// push config\n\t\tif err := pushIfNotExist(ctx, pusher, configDesc, configBytes); err != nil {\n\t\t\treturn ocispec.Descriptor{}, fmt.Errorf(\"failed to push config: %w\", err)\n\t\t}\n\t\temptyBlobExists = true\n\t}\n",
+		New: "\n\t// prepare config\n\tvar emptyBlobExists bool\n\tvar configDesc ocispec.Descriptor\n\tif opts.ConfigDescriptor != nil {\n\t\tif err := validateMediaType(opts.ConfigDescriptor.MediaType); err != nil {\n\t\t\treturn ocispec.Descriptor{}, fmt.Errorf(\"invalid config mediaType format: %w\", err)\n\t\t}\n\t\tconfigDesc = *opts.ConfigDescriptor\n\t} else {\n\t\t// use the empty descriptor for config\n\t\tconfigDesc = ocispec.DescriptorEmptyJSON\n\t\tconfigDesc.Annotations = opts.ConfigAnnotations\n\t\tconfigBytes := ocispec.DescriptorEmptyJSON.Data\n\t\t// push config\n\t\tif err := pushIfNotExist(ctx, pusher, configDesc, configBytes); err != nil {\n\t\t\treturn ocispec.Descriptor{}, fmt.Errorf(\"failed to push config: %w\", err)\n\t\t}\n\t\temptyBlobExists = true\n\t}\n\tif artifactType != \"\" {\n\t\tif err := validateMediaType(artifactType); err != nil {\n\t\t\treturn ocispec.Descriptor{}, fmt.Errorf(\"invalid artifactType format: %w\", err)\n\t\t}\n\t}\n", Expect: "C19.R1"},
 	{Name: "v10-validates-the-default-instead", File: "pack.go",
 		Old: "\t\t} else if err := validateMediaType(artifactType); err != nil {", New: "\t\t} else if err := validateMediaType(MediaTypeUnknownConfig); err != nil {", Expect: "C19.R1"},
 	{Name: "v11-artifacttype-validation-error-ignored", File: "pack.go",
